@@ -10,7 +10,7 @@ from .values import (SInt, SBool, SBytes, SStr, SSeq, SObj, SExc, SMethod, SClos
                      Opaque, is_sym, is_intlike, is_byteslike, is_strlike)
 
 from .seqs import Fold, SymDict, ElemKind, SAbstractClass, SMapSeq
-from .extmodels import SExt, ext_getattr, ext_str, ext_binop
+from .extmodels import SExt, ext_getattr, ext_str, ext_binop, SSync, sync_method, SCallable, call_scallable
 
 _MISSING = object()
 _member_descriptor = type(type("_S", (), {"__slots__": ("a",)}).a)
@@ -54,7 +54,7 @@ class InterpMixin(object):
                 n = self.call_function(m, [v], {})
                 return self.truth(self.compare("!=", n, 0))
             return True
-        if isinstance(v, (SExc, SMethod, SClosure, Opaque, SExt)):
+        if isinstance(v, (SExc, SMethod, SClosure, Opaque, SExt, SSync, SCallable)):
             return True
         if type(v).__name__ == "SSplit":
             return True          # str.split never returns an empty list
@@ -77,7 +77,7 @@ class InterpMixin(object):
             return isinstance(cls, type) and issubclass(v.cls, cls)
         if isinstance(v, (SExc, SExt)):
             return isinstance(cls, type) and issubclass(v.cls, cls)
-        if isinstance(v, (SMethod, SClosure)):
+        if isinstance(v, (SMethod, SClosure, SSync, SCallable)):
             return cls is object
         if isinstance(v, Opaque):
             return cls is object
@@ -135,6 +135,16 @@ class InterpMixin(object):
             self.py_raise(AttributeError, "'%s' object has no attribute '%s'" % (obj.cls.__name__, name))
         if isinstance(obj, SExt):
             return ext_getattr(self, obj, name)
+        if isinstance(obj, SSync):
+            if name == "st":
+                return obj.st
+            return SMethod(obj, None, name)
+        if isinstance(obj, SCallable):
+            if name == "tag":
+                return obj.tag
+            if name in obj.attrs:
+                return obj.attrs[name]
+            self.py_raise(AttributeError, name)
         if isinstance(obj, Sym):
             if name == "__class__":
                 return self.type_of(obj)
@@ -181,6 +191,11 @@ class InterpMixin(object):
             if isinstance(cattr, property):
                 if cattr.fget is None:
                     self.py_raise(AttributeError, "unreadable attribute")
+                if not self.eng.is_repo_function(cattr.fget) and obj.idict is not None \
+                        and not isinstance(obj.idict, SymDict) and name in obj.idict:
+                    # property of an external base class (e.g. multiprocessing.Process.name): the
+                    # shape supplies the value directly
+                    return obj.idict[name]
                 return self.call_function(cattr.fget, [obj], {})
             if isinstance(cattr, _member_descriptor):
                 if name in obj.slots:
@@ -255,6 +270,8 @@ class InterpMixin(object):
             return fn.apply(self, args[0])
         if isinstance(fn, SAbstractClass):
             return fn.ctor(self, fn, args, kwargs)
+        if isinstance(fn, SCallable):
+            return call_scallable(self, fn, args, kwargs)
         if isinstance(fn, types.MethodType):
             return self.call_function(fn.__func__, [fn.__self__] + list(args), kwargs)
         if isinstance(fn, (staticmethod, classmethod)):
@@ -407,7 +424,7 @@ class InterpMixin(object):
         return obj
 
     def deep_concrete(self, v, depth=0):
-        if isinstance(v, (Sym, SObj, SExc, SMethod, SClosure, SExt, Opaque)):
+        if isinstance(v, (Sym, SObj, SExc, SMethod, SClosure, SExt, Opaque, SSync, SCallable)):
             return False
         if isinstance(v, (list, tuple, set, frozenset)) and depth < 4:
             return all(self.deep_concrete(x, depth + 1) for x in v)
@@ -733,7 +750,8 @@ class InterpMixin(object):
         E = _engine_excs()
         spec = self.eng.loopspecs.get((fr.name, self.loop_key(s, fr)))
         it = self.eval(s.iter, fr)
-        if spec is not None:
+        symbolic_iter = isinstance(it, (SSeq, SymDict, SymDictKeys)) or type(it).__name__ == "SEnumSeq"
+        if spec is not None and (symbolic_iter or spec.any_order):
             return self.exec_loop_with_invariant(s, fr, spec, kind="for", iterable=it)
         if isinstance(it, SymDict):
             it = SymDictKeys(it)
